@@ -598,14 +598,14 @@ func init() {
 	real := []string{"lexer (goroutine)", "FOR expander (goroutine per pass)", "symbol scanner", "parser", "compiler", "expression evaluator", "nested ;assert lexers"}
 	stubs := []string{"io.Reader (simulated stream)", "goroutine scheduling choice (seeded controller over real goroutines)", "map iteration order (tape-permuted)", "time (tick clock)"}
 	register(&PropSpec{
-		ID: "C05", Engine: "asm", Fn: caseAsm, Quick: 300000, Thorough: 12000000, Level: "exploration",
+		ID: "C05", Engine: "asm", Fn: caseAsm, Quick: 300000, Thorough: 8000000, Level: "exploration",
 		Rule: "a case = (configuration, text from program/mutated/soup/raw/corpus generators, in-flight fault, reader behaviour, schedule, map order) drawn from one tape; each case is assembled twice (baseline schedule, drawn schedule); non-trivial = delivered text non-empty; distinct = distinct (delivered bytes, configuration, error position)",
 		Real: real, Stubs: stubs,
 		Assume: []string{"verdicts are about the instrumented copy of the working tree; 1 in 8 clean cases is cross-checked against the untouched copy (transparency)",
 			"tick budget 3e6 per assembly; cases whose channel traffic exceeds 64x the generator's expansion estimate are discarded as outside the FOR bound"},
 	})
 	register(&PropSpec{
-		ID: "C06", Engine: "asm", Fn: caseAsm, Quick: 200000, Thorough: 8000000, Level: "exploration",
+		ID: "C06", Engine: "asm", Fn: caseAsm, Quick: 200000, Thorough: 4000000, Level: "exploration",
 		Rule: "same engine as C05 with a generator mix biased to accepted programs (valid and near-valid, both dialects, length/ORG/END near-misses); the well-formedness monitor runs on every successful assembly (baseline and variant); non-trivial = delivered text non-empty; distinct as C05",
 		Real: real, Stubs: stubs,
 		Assume: []string{"legal '88 table and default modifiers written from the ICWS'88 standard / ICWS'94 draft in ref/legal88.go"},
